@@ -921,6 +921,7 @@ func (self *LockDB) restructuringLongTimeOutQueue(longLocks *LongWaitLockQueue) 
 	for tailNodeIndex > longLocks.locks.tailNodeIndex+1 {
 		longLocks.locks.queues[tailNodeIndex] = nil
 		longLocks.locks.nodeQueueSizes[tailNodeIndex] = 0
+		longLocks.locks.nodeIndex--
 		tailNodeIndex--
 	}
 	longLocks.locks.queueSize = longLocks.locks.baseQueueSize * int32(uint32(1)<<uint32(tailNodeIndex))
@@ -1183,6 +1184,7 @@ func (self *LockDB) restructuringLongExpriedQueue(longLocks *LongWaitLockQueue) 
 	for tailNodeIndex > longLocks.locks.tailNodeIndex+1 {
 		longLocks.locks.queues[tailNodeIndex] = nil
 		longLocks.locks.nodeQueueSizes[tailNodeIndex] = 0
+		longLocks.locks.nodeIndex--
 		tailNodeIndex--
 	}
 	longLocks.locks.queueSize = longLocks.locks.baseQueueSize * int32(uint32(1)<<uint32(tailNodeIndex))
